@@ -958,10 +958,13 @@ func main() {
 		}
 		var mu sync.Mutex
 		var wg sync.WaitGroup
+		sem := make(chan struct{}, 7) // clusters alive at a time (each is 3-5 processes)
 		for i, j := range jobs {
 			wg.Add(1)
 			go func(i int, j job) {
 				defer wg.Done()
+				sem <- struct{}{}
+				defer func() { <-sem }()
 				local := &stats{kinds: map[string]int{}, crashPoints: map[string]int{}}
 				why := ""
 				for try := 0; try < 3; try++ {
@@ -983,6 +986,8 @@ func main() {
 				wg.Add(1)
 				go func(k int) {
 					defer wg.Done()
+					sem <- struct{}{}
+					defer func() { <-sem }()
 					local := &stats{kinds: map[string]int{}, crashPoints: map[string]int{}}
 					why := ""
 					for try := 0; try < 3; try++ {
@@ -1006,6 +1011,8 @@ func main() {
 		wg.Add(1)
 		go func() {
 			defer wg.Done()
+			sem <- struct{}{}
+			defer func() { <-sem }()
 			local := &stats{kinds: map[string]int{}, crashPoints: map[string]int{}}
 			why := scenarioDeterminism(o, local)
 			mu.Lock()
